@@ -232,6 +232,9 @@ def contained(rec, sim, R, V, boom):
 def run_history(rec, case):
     rng = gen.mkrng('c05', case['seed'], case['i'])
     srv = rng.choice(['T', 'A'])
+    if srv == 'A' and case.get('aio'):
+        srv = case['aio']    # asyncio server behind the aiohttp adapter
+        rec.count('histories_on_aiohttp_adapter')
     pi, pt = rng.choice([(25, 20), (5, 3), (1, 1), (2, 0.5)])
     rec.evaluations += 1
     boom = {}
@@ -291,7 +294,7 @@ def run_history(rec, case):
             s = rng.choice(live)
             k = rng.random()
             if k < 0.2:
-                R.send(s, 'text')
+                R.send(s, ('text', 'json', 'binary', 'text')[len(R.sends) % 4])
             elif k < 0.4:
                 uid, data, wire = R.up_payload(s, 'text')
                 if s.mode == 'websocket' and s.ws is not None:
@@ -732,6 +735,8 @@ def run_shard(spec):
     else:
         cases = [{'seed': spec['seed'], 'i': spec['shard'] * 1000000 + k}
                  for k in range(spec['n'])]
+        for c in cases[::2]:
+            c['aio'] = 'H'
         scen.run_cases(rec, cases, dispatch)
     return rec.result()
 
